@@ -245,7 +245,9 @@ class BlockEval:
                 raise Unknown(f"statement `{ast.unparse(st)[:50]}`")
         elif isinstance(st, ast.For):
             it = self.fold(st.iter)
-            for item in list(it):
+            # the language's own iteration protocol, not a snapshot: a body that removes from / appends to the list (or ordered set)
+            # it is walking over skips or repeats members exactly as the interpreter does; a dict that changes size raises
+            for item in it:
                 self._assign(st.target, item)
                 try:
                     self._block(st.body)
